@@ -704,6 +704,48 @@ def audit5_cases(chk):
                 violation('hand-written K{u8 n; u8 bs<@n>; I fix[2]; I dyn<@n>}', how, 'a rejected add() left an element')
         except Exception as ex:  # noqa
             violation('hand-written K{u8 n; u8 bs<@n>; I fix[2]; I dyn<@n>}', how, 'rejected with %s instead of ProphyError' % py_impl.exc_class(ex))
+    # a value whose conversion itself adds to the array (an int subclass with its own __int__): the limit holds afterwards,
+    # whichever operation stored it (seeded round 7: insert validated the value after it had looked at the limit)
+    R = type(sb)('R5', (sb,), {'_descriptor': [('n', prophy.u8), ('a', prophy.array(prophy.u8, bound='n', size=3))]})
+    for how in ('insert', 'append', 'extend', 'slice', 'add-front'):
+        case(('re-entrant value', how))
+        r5 = R()
+        r5.a[:] = [1, 2]
+
+        class Sneaky(int):
+            fired = False
+
+            def __int__(self):
+                if not Sneaky.fired:
+                    Sneaky.fired = True
+                    r5.a.append(9)
+                return 7
+
+            __index__ = __int__
+        try:
+            if how == 'insert':
+                r5.a.insert(1, Sneaky(7))
+            elif how == 'append':
+                r5.a.append(Sneaky(7))
+            elif how == 'extend':
+                r5.a.extend([Sneaky(7)])
+            elif how == 'slice':
+                r5.a[2:] = [Sneaky(7)]
+            else:
+                r5.a.insert(-100, Sneaky(7))
+        except prophy.ProphyError:
+            pass
+        except Exception as ex:  # noqa
+            violation('hand-written R{u8 n; u8 a<3>@n}', 'a[:] = [1, 2]; a.%s(<int subclass whose __int__ appends to a>)' % how,
+                      'raised %s instead of ProphyError' % py_impl.exc_class(ex))
+            continue
+        try:
+            ok = len(r5.a) <= 3 and R().decode(r5.encode('<'), '<') == len(r5.encode('<'))
+        except Exception:  # noqa
+            ok = False
+        if not ok:
+            violation('hand-written R{u8 n; u8 a<3>@n}', 'a[:] = [1, 2]; a.%s(<int subclass whose __int__ appends to a>)' % how,
+                      'the array holds %d elements, its limit is 3 (or its own encoding is refused)' % len(r5.a))
     # D192: an index beyond the machine word is an index beyond the ends
     case(('insert', 'huge index'))
     a5 = A()
